@@ -101,4 +101,23 @@ PropHalfStep(c, p, c4) ==
      => (c4 - s[1] <= 2 /\ s[1] - c4 <= 2 /\ (s[1] - c4 = 2 => s[2] = 0))
 \* idempotence domain: linear formats and plain ReLU
 IdemDom(c) == c.cls \in {"bits", "linear"} \/ (c.cls = "relu" /\ c.sl = 0)
+
+\* ---------------------------------------------------------------- concretisation (float32 inputs and outputs)
+\* hard sigmoid exactly as float32 evaluates clip(0.5*x + 0.5, 0, 1); hard tanh = 2*sigmoid - 1
+HardSig(x) == DClip(Add32(Scale2(x, -1), Half), Zero, One)
+HardTanh(x) == Add32(Scale2(HardSig(x), 1), <<-1, 0>>)
+\* argument whose position on the step grid decides the code
+SurrArg(c, x) ==
+  CASE c.cls = "tanh" -> HardTanh(x)
+    [] c.cls = "sigmoid" -> HardSig(x)
+    [] c.cls = "linear" -> Scale2(x, -Log2Exact(c.al))        \* x / alpha, alpha a power of two (Dom)
+    [] OTHER -> x
+Pos(c, x) == QPos(SurrArg(c, x), StepE(c))
+\* y / (alpha * step) in quarter steps: <<exact?, q4>>
+YQ(c, y) ==
+  LET n == Norm(y)  a == Norm(c.al)  sh == n[2] - a[2] - StepE(c) + 2 IN
+  IF n[1] = 0 THEN <<TRUE, 0>>
+  ELSE IF sh >= 0 THEN IF sh > 6 THEN <<TRUE, Sgn(n[1]) * 4 * BigPos>>
+                       ELSE LET num == n[1] * Pow2(sh) IN <<(num % a[1]) = 0, num \div a[1]>>
+  ELSE <<FALSE, 0>>
 =============================================================================
